@@ -227,7 +227,12 @@ func (vc *VC) declFun(name string, args []Sort, ret Sort) {
 
 func (vc *VC) fresh(prefix string, s Sort) string {
 	vc.n++
-	return vc.declConst(fmt.Sprintf("%s!%d", mangle(prefix), vc.n), s)
+	c := vc.declConst(fmt.Sprintf("%s!%d", mangle(prefix), vc.n), s)
+	if s == SInt {
+		// a value that exists now can only refer to objects allocated before now
+		vc.birth[c] = vc.clock
+	}
+	return c
 }
 
 func (vc *VC) freshRaw(prefix, sortExpr string) string {
@@ -413,6 +418,7 @@ const fieldTheory = `(declare-const f0 F)
 (assert (= (ofInt 0) f0))
 (assert (= (ofInt 1) f1))
 (assert (forall ((x F)) (! (=> (distinct x f0) (= (fmul x (finv x)) f1)) :pattern ((finv x)))))
+(assert (= (finv f0) f0))
 (assert (forall ((x F) (y F)) (! (=> (= (fmul x y) f0) (or (= x f0) (= y f0))) :pattern ((fmul x y)))))
 `
 
@@ -552,7 +558,7 @@ func (vc *VC) typeFacts(l *Layouter, t types.Type, c []string, brk string) []str
 	case *types.Pointer:
 		out = append(out, app("<", c[0], brk), app(">=", c[1], "0"), sImp(sEq(c[0], "0"), sEq(c[1], "0")))
 	case *types.Slice:
-		out = append(out, app("<", c[0], brk), app(">=", c[1], "0"), app(">=", c[2], "0"), app(">=", c[3], c[2]),
+		out = append(out, app("<", c[0], brk), app(">=", c[1], "0"), app(">=", c[2], "0"), app(">=", c[3], c[2]), app("<", c[3], "9223372036854775808"),
 			sImp(sEq(c[0], "0"), sAnd(sEq(c[2], "0"), sEq(c[3], "0"), sEq(c[1], "0"))))
 	case *types.Interface:
 		out = append(out, app(">=", c[0], "0"), sImp(sEq(c[0], "0"), sEq(c[1], "0")))
